@@ -1,22 +1,29 @@
 #!/usr/bin/env bash
 # Sensitivity tool: apply a patch to a scratch copy of /repo (never to /repo itself), build the
 # simulator against it and run the given properties' quick checks.
-#   tools/mutant.sh <patch-file> <ID> [<ID>...]       env: MUT_RUNS (override run count), MUT_TIER
-# Prints one line per property: "<patch> <ID> caught|MISSED (exit N)".
+#   tools/mutant.sh <patch-file> <ID> [<ID>...]
+#   env: MUT_RUNS (override run count), MUT_TIER, MUT_WORK (scratch dir, default /tmp/mut-work;
+#        use a different one per concurrent invocation), MUT_TARGET (cargo target dir)
+# Prints one line per property: "<patch> <ID> caught (...)|MISSED (exit N)".
+# The scratch dir is reused between invocations (rsync --delete restores it), so cargo only
+# rebuilds the crates the patch touches.
 set -u
 ROOT="$(cd "$(dirname "$0")/.." && pwd)"
 PATCH="$(readlink -f "$1")"; shift
-W="$(mktemp -d /tmp/mut-XXXXXX)"
-if [ -n "${MUT_KEEP:-}" ]; then echo "keeping $W"; else trap 'rm -rf "$W"' EXIT; fi
-rsync -a --exclude target --exclude .git /repo/ "$W/repo/"
+W="${MUT_WORK:-/tmp/mut-work}"
+mkdir -p "$W"
+exec 9>"$W/.lock"
+flock 9
+rsync -a --delete --exclude target --exclude .git /repo/ "$W/repo/"
 if ! (cd "$W/repo" && patch -p1 --quiet < "$PATCH"); then
   echo "$(basename "$PATCH") PATCH-DOES-NOT-APPLY"; exit 2
 fi
-rsync -a --exclude target "$ROOT/sim/" "$W/sim/"
+rsync -a --delete --exclude target "$ROOT/sim/" "$W/sim/"
 sed -i "s#\"/repo/#\"$W/repo/#g" "$W/sim/Cargo.toml"
 cp "$ROOT/known_findings.json" "$ROOT/properties.jsonl" "$W/"
+rm -rf "$W/replays"
 export CARGO_NET_OFFLINE=true
-export CARGO_TARGET_DIR="${MUT_TARGET:-/tmp/mut-target}"
+export CARGO_TARGET_DIR="${MUT_TARGET:-$W/target}"
 if ! (cd "$W/sim" && cargo build --release --offline >"$W/build.log" 2>&1); then
   echo "$(basename "$PATCH") DOES-NOT-COMPILE"; tail -20 "$W/build.log"; exit 2
 fi
